@@ -75,6 +75,13 @@ REF_PROGRAMS = {
     "list-shared-with-callee": "flow c $l\n  match E1()\n  ($l.append(2))\n  match E3()\n\nflow main\n  $a = [1]\n  start c $a\n  match E2()\n  send Echo(n=len($a))\n  match Never()\n",
     # one compiled regular expression held in two places (re.compile caches: equal patterns are one object)
     "regex-held-twice": "flow c $r\n  match E1(p=$r)\n  send CM()\n  match E3()\n\nflow main\n  $x = regex(\"a\")\n  $y = regex(\"a\")\n  start c $x\n  match E2(p=$y)\n  send Echo()\n  match Never()\n",
+    # an action that is only reachable through state.actions when the state is saved (its reference variable was
+    # overwritten by the next loop iteration); the State carries a RailsConfig like every State made by LLMRails
+    "action-in-loop": "flow main\n  while True\n    match E1()\n    await ActLAction(script=\"Hello!\") as $r\n    send Echo()\n",
+    # a flow that keeps the Started event of its own instance (the event's `flow` member is the flow: a reference cycle)
+    "own-started-event": "flow tracked\n  match FlowStarted(flow_id=\"tracked\") as $started\n  match E1()\n  send Echo(f=$started.flow_id)\n  match E3()\n\nflow main\n  start tracked\n  match Never()\n",
+    # the Finished event of an action whose flow is over (Stop was sent) arrives later; `$e.action` is looked at
+    "event-action-of-ended-flow": "flow speaker\n  start SpeechBotAction(script=\"a long speech\") as $speech\n  match E1()\n\nflow main\n  start speaker\n  match SpeechBotAction.Finished() as $e\n  send Echo(a=str($e.action.start_event_arguments))\n  match Never()\n",
     "await-then-finish": "flow c\n  match E1()\n  match E2()\n\nflow d\n  match E1()\n\nflow main\n  start c\n  await d\n  send Echo()\n  match E3()\n  send Echo2()\n  match Never()\n",
 }
 
@@ -106,6 +113,7 @@ def all_outcomes(state, uid_n, conc):
 
 
 C09_ON_CUT_STATES = False
+CUT_KINDS = ("SAVE_RESTORE", "AGE", "AGE_EACH", "RESTORE_AGED")
 
 
 class Mismatch(Exception):
@@ -195,7 +203,7 @@ def explore(task):
     info0 = {"engine": "C11", "program": name, "source": src}
     base_t = seams.clock().t
     try:
-        st = v2x.init_state(src)
+        st = v2x.init_state(src, with_rails_config=name in REF_PROGRAMS or name in ZOO)
     except Exception as e:
         return {"stats": stats, "viol": [(f"program-rejected:{name}", repr(e), info0)]}
     frontier = _deque([(st, v2x.UIDS.n, (), 0)])
@@ -205,7 +213,7 @@ def explore(task):
     while frontier:
         state, uid_n, hist, d = frontier.popleft()
         # ---- cut transitions at this state
-        for kind in ("SAVE_RESTORE", "AGE", "AGE_EACH", "RESTORE_AGED"):
+        for kind in CUT_KINDS:
             trail = [list(h) for h in hist]
             try:
                 if kind == "SAVE_RESTORE":
@@ -344,7 +352,7 @@ def run(rep, tier):
 
 def replay(rp):
     src = rp["source"]
-    st = v2x.init_state(src)
+    st = v2x.init_state(src, with_rails_config=rp.get("program") in REF_PROGRAMS or rp.get("program") in ZOO)
     n = v2x.UIDS.n
     print(src)
     for aev, vec in [(tuple(h[0]), h[1]) for h in rp["history"]]:
